@@ -518,7 +518,7 @@ def arr_exists(a, pred=None):
 # dynamic values
 # ----------------------------------------------------------------------------
 class Val:
-    __slots__ = ("none", "num", "boo", "arr", "tup", "s", "ref", "poly", "py", "kind", "exc", "lazy")
+    __slots__ = ("none", "num", "boo", "arr", "tup", "s", "ref", "poly", "py", "kind", "exc", "lazy", "merged_refs")
 
     def __init__(self, none=None, num=None, boo=None, arr=None, tup=None, s=None, ref=None, poly=None, py=None, kind=None):
         self.none = none  # None (statically not None) | z3 Bool
@@ -532,6 +532,7 @@ class Val:
         self.py = py
         self.kind = kind
         self.lazy = None  # poly values: numeric facet to use when one is first needed
+        self.merged_refs = None
 
     # constructors -----------------------------------------------------
     @staticmethod
@@ -824,6 +825,10 @@ def val_ite(c, a, b):
             return a
         r.poly = ctx().fresh("mrg")
         r.ref = "$" + r.poly
+        if a.ref is not None and b.ref is not None:
+            r.merged_refs = (a.ref, b.ref)  # merge_states gives the merged object the typed fields of both sides
+            if a.py is not None and b.py is not None and a.py[0] == "instance" and b.py[0] == "instance" and a.py[1] == b.py[1]:
+                r.py = a.py
     if r.num is None and r.poly is not None and r.arr is None:
         la = a.num if a.num is not None else getattr(a, "lazy", None)
         lb = b.num if b.num is not None else getattr(b, "lazy", None)
